@@ -206,6 +206,11 @@ func (x *c04World) cidFor(r c04Req) string {
 type c04Result struct {
 	confs []*rpc.NetConf
 	err   error
+	// what the store held for the pod at the instant the reply was returned (before the
+	// harness waits for goroutines the request left behind): an acknowledged ADD/DEL must
+	// already be reflected then
+	recAtReply    bool
+	recCidAtReply string
 }
 
 // drain waits until the goroutines a request left behind (the pool's per-request commit /
@@ -226,7 +231,14 @@ func (x *c04World) drain(baseline int) {
 func (x *c04World) issue(ctx context.Context, r c04Req, cid string) c04Result {
 	base := runtime.NumGoroutine()
 	defer x.drain(base)
-	return x.issue0(ctx, r, cid)
+	res := x.issue0(ctx, r, cid)
+	if rec, ok := x.w.record(c04PodName(r.Pod)); ok {
+		res.recAtReply = true
+		if rec.ContainerID != nil {
+			res.recCidAtReply = *rec.ContainerID
+		}
+	}
+	return res
 }
 
 func (x *c04World) issue0(ctx context.Context, r c04Req, cid string) c04Result {
@@ -318,6 +330,9 @@ func (x *c04World) judge(r c04Req, cid string, res c04Result, viewBefore string,
 				}
 			}
 			m.cur = &c04Alloc{cid: cid, v4: v4, v6: v6}
+			if !res.recAtReply || res.recCidAtReply != cid {
+				c.Fatalf("ADD for %s (sandbox %s) was acknowledged before its record was in the store (at the reply: record present=%v, sandbox %q)", name, cid, res.recAtReply, res.recCidAtReply)
+			}
 			rec, ok := x.w.record(name)
 			if !ok || rec.ContainerID == nil || *rec.ContainerID != cid {
 				c.Fatalf("acknowledged ADD for %s (sandbox %s) is not recorded in the store", name, cid)
@@ -394,6 +409,9 @@ func (x *c04World) judge(r c04Req, cid string, res c04Result, viewBefore string,
 				m.cur = nil
 			}
 			return
+		}
+		if res.recAtReply {
+			c.Fatalf("DEL for %s (sandbox %s) was acknowledged while its record was still in the store", name, cid)
 		}
 		if _, ok := x.w.record(name); ok {
 			c.Fatalf("acknowledged DEL for %s (sandbox %s) left its record in the store", name, cid)
